@@ -7,6 +7,12 @@ Wire form of a value (also the form of witnesses / corpus lines):
   null | true/false | {"i": int} | {"f": [neg, n]} integral float |x|<1e16 | {"d": repr} other finite float |
   {"s": str} | {"a": [...]} | {"o": [[key, value], ...]} (insertion order)
 
+Object graphs and histories (stream `history`): the Python object handed to jsonStringify need not be a tree - the same
+list/dict instance can sit at several places (arrayNew(row, row), arrayNewSize(3, row), arrayCopy sharing its elements),
+and it can be changed in place between two serialisations. The model value is the TREE such an object denotes (the wire
+form sent to the driver is the expansion); a witness of this stream is the whole history {"history": {...}} (grammar in
+the comment above CONFUSABLE), replayed step by step through the library functions and as a BareScript program.
+
 Outside the property / the model (excluded from the generators): datetime / function / regex values (serialise as
 strings or null), non-string keys, NaN / infinities (`allow_nan=False` raises), lone surrogates (a Python str can hold
 them and json.dumps escapes them; a Lean `Char` cannot), containers that contain themselves (F18).
@@ -57,7 +63,9 @@ LEVEL_TEXT = ('Theorems for all JSON values (unbounded depth and length, strings
               'sorted, numbers by value) - including the full \\uXXXX / surrogate-pair escape round trip; hence injectivity, '
               'sorted keys, and no fraction on integral numbers. The model is tied to value_json / jsonStringify / jsonParse by '
               'differential streams; the property oracles (json.loads, jsonParse∘jsonStringify via value_compare, key order, '
-              'number tokens, literal tokens, injectivity pool) run directly on the implementation.')
+              'number tokens, literal tokens, injectivity pool) run directly on the implementation - on tree-shaped values and on '
+              'object graphs / histories (one container instance at several places, changed between serialisations, parsed back; '
+              'through the library functions and through scripts), each judged against a reference execution on plain trees.')
 LEVEL_NOTE = ('Trusted: Lean kernel; extract.py; this harness. Modelled, not verified: float/int repr, json.dumps layout and escapes, '
               'CPython re, json.loads. Lone surrogates, NaN/inf, datetime/function values are outside the property.')
 
@@ -219,48 +227,30 @@ def keys_in_text_order_sorted(text):
 _INT_TOKEN = re.compile(r'-?(?:0|[1-9]\d*)\Z')
 
 
-def oracle_failures(impl, v, indent, extra=None):
-    """All property oracles on the real implementation for value v and indent (None or int).
-    -> (list of (oracle, expected, actual) - empty when the property holds on this input -, text of value_json or None).
-    extra['jsonStringify'] receives what the library function returned (correspondence only: a different but valid layout is not
-    a violation of the property)."""
+def text_failures(impl, text, parse_text, want):
+    """The property oracles on ONE serialised text: `text` claims to be the JSON of the value `want` (a plain tree, built
+    independently of the object that was serialised); `parse_text` is what jsonParse gets (the library function's output).
+    -> list of (oracle, expected, actual), empty when the property holds."""
     fails = []
-    extra = {} if extra is None else extra
     value, library = impl['value'], impl['library']
-    try:
-        text = value.value_json(v, indent)
-    except Exception as exc:  # pylint: disable=broad-except
-        return [('serialises', 'a JSON text', f'{type(exc).__name__}: {exc}')], None
-    if not isinstance(text, str):
-        return [('serialises', 'a JSON text', repr(text)[:200])], None
 
-    # jsonStringify (library function, indent as int or float) is value_json
-    try:
-        args = [v] if indent is None else [v, float(indent) if indent % 2 else indent]
-        lib_text = library._json_stringify(args, None)  # pylint: disable=protected-access
-        extra['jsonStringify'] = lib_text
-    except Exception as exc:  # pylint: disable=broad-except
-        lib_text = None
-        extra['jsonStringify'] = f'{type(exc).__name__}: {exc}'
-        fails.append(('serialises', 'jsonStringify returns a JSON text', extra['jsonStringify']))
-
-    # 1. valid JSON that a standard parser maps back to v
+    # 1. valid JSON that a standard parser maps back to the value
     try:
         back = json.loads(text)
-        if not py_equal(back, v):
-            fails.append(('std-parser-roundtrip', canon(v), canon(back)))
+        if not py_equal(back, want):
+            fails.append(('std-parser-roundtrip', canon(want), canon(back)))
     except Exception as exc:  # pylint: disable=broad-except
         back = None
         fails.append(('valid-json', 'json.loads accepts ' + text[:300], f'{type(exc).__name__}: {exc}'))
 
     # 2. jsonParse(jsonStringify(v)) == v by value_compare
     try:
-        parsed = library._json_parse([lib_text if isinstance(lib_text, str) else text], None)  # pylint: disable=protected-access
-        cmp_ = value.value_compare(parsed, v)
-        if cmp_ != 0 or not py_equal(parsed, v):
-            fails.append(('jsonParse-jsonStringify', canon(v), {'value_compare': cmp_, 'parsed': canon(parsed)}))
+        parsed = library._json_parse([parse_text], None)  # pylint: disable=protected-access
+        cmp_ = value.value_compare(parsed, want)
+        if cmp_ != 0 or not py_equal(parsed, want):
+            fails.append(('jsonParse-jsonStringify', canon(want), {'value_compare': cmp_, 'parsed': canon(parsed)}))
     except Exception as exc:  # pylint: disable=broad-except
-        fails.append(('jsonParse-jsonStringify', canon(v), f'{type(exc).__name__}: {exc}'))
+        fails.append(('jsonParse-jsonStringify', canon(want), f'{type(exc).__name__}: {exc}'))
 
     # 3. keys in sorted order in the text
     if back is not None:
@@ -271,7 +261,7 @@ def oracle_failures(impl, v, indent, extra=None):
     # 4./5. tokens: string literals are the plain escapes of the originals; integral numbers have no fraction
     toks = tokenise(text)
     strs, nums = [], []
-    walk(v, strs, nums)
+    walk(want, strs, nums)
     if toks is None:
         fails.append(('strings-untouched', 'terminated literals', text[:300]))
     else:
@@ -296,6 +286,41 @@ def oracle_failures(impl, v, indent, extra=None):
                     fails.append(('integral-no-fraction' if val_ok else 'number-value',
                                   (str(int(x)) if x != 0 or isinstance(x, int) or math.copysign(1.0, x) > 0 else '-0') if integral else repr(x), w))
                     break
+    return fails
+
+
+def oracle_failures(impl, v, indent, extra=None, ref=None):
+    """All property oracles on the real implementation for value v and indent (None or int).
+    -> (list of (oracle, expected, actual) - empty when the property holds on this input -, text of value_json or None).
+    `ref` is an independent plain-tree copy of v made BEFORE the call (every container a fresh object): the texts are judged
+    against it, so neither the object identity of v's parts (one array referenced from two places) nor anything the
+    serialiser does to its argument can leak into the expectation; extra['mutated'] is set when v no longer equals ref afterwards.
+    extra['jsonStringify'] receives what the library function returned (correspondence only: a different but valid layout is not
+    a violation of the property)."""
+    fails = []
+    extra = {} if extra is None else extra
+    want = v if ref is None else ref
+    value, library = impl['value'], impl['library']
+    try:
+        text = value.value_json(v, indent)
+    except Exception as exc:  # pylint: disable=broad-except
+        return [('serialises', 'a JSON text', f'{type(exc).__name__}: {exc}')], None
+    if not isinstance(text, str):
+        return [('serialises', 'a JSON text', repr(text)[:200])], None
+
+    # jsonStringify (library function, indent as int or float) is value_json
+    try:
+        args = [v] if indent is None else [v, float(indent) if indent % 2 else indent]
+        lib_text = library._json_stringify(args, None)  # pylint: disable=protected-access
+        extra['jsonStringify'] = lib_text
+    except Exception as exc:  # pylint: disable=broad-except
+        lib_text = None
+        extra['jsonStringify'] = f'{type(exc).__name__}: {exc}'
+        fails.append(('serialises', 'jsonStringify returns a JSON text', extra['jsonStringify']))
+
+    fails += text_failures(impl, text, lib_text if isinstance(lib_text, str) else text, want)
+    if ref is not None and not py_equal(v, ref):
+        extra['mutated'] = True
     return fails, text
 
 
@@ -397,7 +422,8 @@ def load_corpus():
                 ln = ln.strip()
                 if ln and not ln.startswith('#'):
                     d = json.loads(ln)
-                    out.append((from_wire(d['value']), d.get('indent')))
+                    if 'history' not in d:
+                        out.append((from_wire(d['value']), d.get('indent')))
     return out
 
 
@@ -415,8 +441,10 @@ def run_encode_cases(ctx, st, stream, cases, pool):
     for (v, ind, tags), req, resp in zip(cases, reqs, resps):
         case = {'value': req['value'], 'indent': ind}
         extra = {}
-        fails, text = oracle_failures(impl, v, ind, extra)
+        fails, text = oracle_failures(impl, v, ind, extra, ref=from_wire(req['value']))
         nontrivial = isinstance(v, (list, dict)) and len(v) > 0
+        if extra.get('mutated'):
+            ctx.disagree(stream, case, {'argument after the call': to_wire(v)}, {'argument': req['value']}, 'value_json changed its argument')
         st.case(case, nontrivial=nontrivial, tags=list(tags) + [f'indent={ind}', f'depth{depth_of(v)}'])
         for oracle, want, got in fails:
             ctx.witness(oracle, case, want, got)
@@ -642,6 +670,16 @@ def stream_reparse(ctx):
         ind = rng.choice([None, None, 2])
         text = lib['jsonStringify']([v] if ind is None else [v, ind], None)
         st.case({'value': text, 'indent': ind}, nontrivial=len(v) > 0, tags=['array' if isinstance(v, list) else 'object'])
+        try:
+            text_ok = py_equal(json.loads(text), v)
+        except (TypeError, ValueError):
+            text_ok = False
+        if not text_ok:
+            # the serialiser (not the parser) went wrong, and only after the calls made before this one: the history stream
+            # looks for a self-contained input; here it is recorded as a broken correspondence
+            ctx.disagree('reparse', {'value': to_wire(v), 'indent': ind, 'after': f'{i} earlier serialisations'}, {'text': str(text)[:300]},
+                         {'value': canon(v)}, 'jsonStringify gave a text that is not the value (depends on earlier calls)')
+            continue
         first = lib['jsonParse']([text], None)
         if isinstance(first, list):
             lib['arrayPush']([first, 'extra'], None)
@@ -655,9 +693,537 @@ def stream_reparse(ctx):
             return
 
 
+# ---------------------------------------------------------------------------------------------------------------------
+# object graphs and histories: the value handed to jsonStringify as a program builds it
+# ---------------------------------------------------------------------------------------------------------------------
+#
+# A JSON value of the property is a TREE; the Python object that denotes it need not be one: `row = arrayNew('r', 1.5)`,
+# `objectNew('first', row, 'last', row)` holds ONE list object at two places (no cycle), arrayNewSize(3, row) holds it three
+# times, arrayCopy / objectCopy share their elements with the original, and a container can be serialised, changed in place
+# and serialised again. None of this may show in the text: it is a function of the denoted tree alone. from_wire() builds a
+# fresh object for every node, so the tree streams above never produce such values; this family does.
+#
+# history = {"scalars": [wire, ...],            leaves by index (in script mode the host globals s0, s1, ...)
+#            "kinds":   ["a" | "o", ...],       kind of every container binding b0, b1, ... in creation order
+#            "steps":   [step, ...]}
+# item = ["s", i] | ["b", j]
+# step = ["arr", [item, ...]]                   b_new = arrayNew(items...)
+#      | ["obj", [[key scalar index, item], ...]] b_new = objectNew(key, item, ...)
+#      | ["copy", j]                            b_new = arrayCopy(bj) / objectCopy(bj)   (shallow: elements shared)
+#      | ["fill", n, item]                      b_new = arrayNewSize(n, item)            (the same item n times)
+#      | ["push", j, item]                      arrayPush(bj, item)
+#      | ["set", j, index | key scalar index, item]   arraySet / objectSet
+#      | ["del", j, key scalar index]           objectDelete
+#      | ["drop", j]                            bj = null (the object may be freed and its id reused)
+#      | ["ser", item, indent | null]           t_new = jsonStringify(item[, indent])    <- every one is judged by all oracles
+#      | ["parse", k]                           b_new = jsonParse(t_k)
+# A step only ever stores binding j into a binding with a larger index, so no container can contain itself (F18 stays out).
+
+CONFUSABLE = [[True, 1, 1.0], [False, 0, 0.0, -0.0], ['1', 1, 1.0], [None, 'null', 'None'], ['', 0, False, None], ['true', True], [2 ** 53, float(2 ** 53)],
+              ['a', 'a.0,'], [1.5, '1.5'], [10 ** 16, 1e16]]
+HIST_MAX_TREE = 250
+
+
+class HistoryAbort(Exception):
+    pass
+
+
+class RefBackend:
+    """Reference semantics of the steps on plain Python lists / dicts - no implementation code."""
+
+    @staticmethod
+    def arr(items):
+        return list(items)
+
+    @staticmethod
+    def obj(pairs):
+        out = {}
+        for k, x in pairs:
+            out[k] = x
+        return out
+
+    @staticmethod
+    def copy(x):
+        return list(x) if isinstance(x, list) else dict(x)
+
+    @staticmethod
+    def fill(n, x):
+        return [x for _ in range(n)]
+
+    @staticmethod
+    def push(b, x):
+        b.append(x)
+
+    @staticmethod
+    def set(b, key, x):
+        b[key] = x
+
+    @staticmethod
+    def delete(b, key):
+        b.pop(key, None)
+
+
+class LibBackend:
+    """The same steps through the library functions of the implementation (called in-process)."""
+
+    def __init__(self, impl):
+        self.fn = impl['library'].SCRIPT_FUNCTIONS
+
+    def arr(self, items):
+        return self.fn['arrayNew'](list(items), None)
+
+    def obj(self, pairs):
+        return self.fn['objectNew']([y for pair in pairs for y in pair], None)
+
+    def copy(self, x):
+        return self.fn['arrayCopy' if isinstance(x, list) else 'objectCopy']([x], None)
+
+    def fill(self, n, x):
+        return self.fn['arrayNewSize']([n, x], None)
+
+    def push(self, b, x):
+        self.fn['arrayPush']([b, x], None)
+
+    def set(self, b, key, x):
+        self.fn['arraySet' if isinstance(b, list) else 'objectSet']([b, key, x], None)
+
+    def delete(self, b, key):
+        self.fn['objectDelete']([b, key], None)
+
+
+def run_history(hist, backend, on_ser, on_parse):
+    """Execute the steps; on_ser(n, step index, object, indent) at the n-th "ser", on_parse(k) -> the value of jsonParse(t_k)."""
+    scal = [from_wire(w) for w in hist['scalars']]
+    binds = []
+
+    def item(it):
+        return scal[it[1]] if it[0] == 's' else binds[it[1]]
+    nser = 0
+    for ix, step in enumerate(hist['steps']):
+        op = step[0]
+        if op == 'arr':
+            binds.append(backend.arr([item(i) for i in step[1]]))
+        elif op == 'obj':
+            binds.append(backend.obj([(scal[k], item(i)) for k, i in step[1]]))
+        elif op == 'copy':
+            binds.append(backend.copy(binds[step[1]]))
+        elif op == 'fill':
+            binds.append(backend.fill(step[1], item(step[2])))
+        elif op == 'push':
+            backend.push(binds[step[1]], item(step[2]))
+        elif op == 'set':
+            b = binds[step[1]]
+            backend.set(b, step[2] if isinstance(b, list) else scal[step[2]], item(step[3]))
+        elif op == 'del':
+            backend.delete(binds[step[1]], scal[step[2]])
+        elif op == 'drop':
+            binds[step[1]] = None
+        elif op == 'ser':
+            on_ser(nser, ix, item(step[1]), step[2])
+            nser += 1
+        elif op == 'parse':
+            binds.append(on_parse(step[1]))
+        else:
+            raise ValueError(op)
+    return binds
+
+
+def parsed_form(v):
+    """What a JSON reader gives back for the text of v, written from the property statement: integral numbers come back as
+    integers (they are written without a fraction; -0 is 0), every container is fresh, keys are in sorted order."""
+    if isinstance(v, float) and v.is_integer() and abs(v) < 1e16:
+        return int(v)
+    if isinstance(v, list):
+        return [parsed_form(x) for x in v]
+    if isinstance(v, dict):
+        return {k: parsed_form(v[k]) for k in sorted(v)}
+    return v
+
+
+def history_snapshots(hist):
+    """-> wire trees of what every "ser" step must serialise (reference run)."""
+    snaps = []
+    run_history(hist, RefBackend, lambda n, ix, obj, ind: snaps.append(to_wire(obj)), lambda k: parsed_form(from_wire(snaps[k])))
+    return snaps
+
+
+def tree_size(x, memo):
+    if not isinstance(x, (list, dict)):
+        return 1
+    k = id(x)
+    if k not in memo:
+        memo[k] = 0
+        memo[k] = 1 + sum(tree_size(y, memo) for y in (x if isinstance(x, list) else x.values()))
+    return memo[k]
+
+
+def shared_containers(x):
+    """number of container objects reachable from x along more than one path"""
+    seen = {}
+
+    def go(y):
+        if isinstance(y, (list, dict)):
+            seen[id(y)] = seen.get(id(y), 0) + 1
+            if seen[id(y)] == 1:
+                for z in (y if isinstance(y, list) else y.values()):
+                    go(z)
+    go(x)
+    return sum(1 for n in seen.values() if n > 1)
+
+
+def gen_hist_scalar(rng):
+    r = rng.random()
+    if r < 0.3:
+        return rng.choice(rng.choice(CONFUSABLE))
+    if r < 0.4:
+        return rng.choice([None, True, False])
+    if r < 0.7:
+        return gen_number(rng)
+    return gen_string(rng)
+
+
+def gen_history(rng):
+    """A random history (see the grammar above), generated alongside its reference execution so that every index / key / size
+    is meaningful; the expansion of any binding into a tree stays below HIST_MAX_TREE nodes."""
+    scalars, steps, kinds = [], [], []
+    binds = []             # reference objects (None once dropped)
+    sers = []              # per "ser": kind of the serialised binding or None
+
+    def new_scalar(v):
+        scalars.append(v)
+        return len(scalars) - 1
+
+    def scalar_item():
+        if scalars and rng.random() < 0.3:
+            return ['s', rng.randrange(len(scalars))]
+        return ['s', new_scalar(gen_hist_scalar(rng))]
+
+    def key_index(existing=None):
+        if existing and rng.random() < 0.6:
+            k = rng.choice(sorted(existing))
+            have = [i for i, x in enumerate(scalars) if isinstance(x, str) and x == k]
+            return have[0] if have else new_scalar(k)
+        have = [i for i, x in enumerate(scalars) if isinstance(x, str)]
+        if have and rng.random() < 0.4:
+            return rng.choice(have)
+        return new_scalar(rng.choice(['a', 'b', 'k', 'id', '', 'a.0,']) if rng.random() < 0.6 else gen_string(rng))
+
+    def alive(below=None):
+        return [j for j, b in enumerate(binds) if b is not None and (below is None or j < below)]
+
+    def item(below=None):
+        js = alive(below)
+        if js and rng.random() < 0.6:
+            return ['b', rng.choice(js[-3:] if rng.random() < 0.7 else js)]
+        return scalar_item()
+
+    def val(it):
+        return scalars[it[1]] if it[0] == 's' else binds[it[1]]
+
+    def too_big():
+        memo = {}
+        return any(tree_size(b, memo) > HIST_MAX_TREE for b in binds if b is not None)
+
+    def create(step, kind, obj):
+        binds.append(obj)
+        if too_big():
+            binds.pop()
+            return
+        kinds.append(kind)
+        steps.append(step)
+
+    n_steps = rng.randint(2, 11)
+    guard = 0
+    while len(steps) < n_steps and guard < 60:
+        guard += 1
+        r = rng.random()
+        js = alive()
+        if not js or r < 0.2:
+            items = [item() for _ in range(rng.choice([0, 1, 2, 2, 3, 4]))]
+            create(['arr', items], 'a', RefBackend.arr([val(i) for i in items]))
+        elif r < 0.38:
+            pairs = [[key_index(), item()] for _ in range(rng.choice([0, 1, 2, 2, 3]))]
+            create(['obj', pairs], 'o', RefBackend.obj([(scalars[k], val(i)) for k, i in pairs]))
+        elif r < 0.45:
+            j = rng.choice(js)
+            create(['copy', j], kinds[j], RefBackend.copy(binds[j]))
+        elif r < 0.51:
+            it = item()
+            n = rng.choice([0, 1, 2, 2, 3])
+            create(['fill', n, it], 'a', RefBackend.fill(n, val(it)))
+        elif r < 0.61:
+            arrs = [j for j in js if kinds[j] == 'a']
+            if arrs:
+                j = rng.choice(arrs)
+                it = item(below=j)
+                binds[j].append(val(it))
+                if too_big():
+                    binds[j].pop()
+                else:
+                    steps.append(['push', j, it])
+        elif r < 0.71:
+            j = rng.choice(js)
+            it = item(below=j)
+            if kinds[j] == 'a':
+                if not binds[j]:
+                    continue
+                key = pykey = rng.randrange(len(binds[j]))
+            else:
+                key = key_index(binds[j].keys())
+                pykey = scalars[key]
+            missing = object()
+            old = binds[j][pykey] if kinds[j] == 'a' else binds[j].get(pykey, missing)
+            binds[j][pykey] = val(it)
+            if too_big():
+                if old is missing:
+                    del binds[j][pykey]
+                else:
+                    binds[j][pykey] = old
+            else:
+                steps.append(['set', j, key, it])
+        elif r < 0.74:
+            objs = [j for j in js if kinds[j] == 'o']
+            if objs:
+                j = rng.choice(objs)
+                key = key_index(binds[j].keys())
+                binds[j].pop(scalars[key], None)
+                steps.append(['del', j, key])
+        elif r < 0.77:
+            if len(js) > 1:
+                j = rng.choice(js)
+                binds[j] = None
+                steps.append(['drop', j])
+        elif r < 0.95:
+            if rng.random() < 0.85:
+                j = rng.choice(js[-2:] if rng.random() < 0.7 else js)
+                it = ['b', j]
+                sers.append(kinds[j])
+            else:
+                it = scalar_item()
+                sers.append(None)
+            steps.append(['ser', it, rng.choice(INDENTS) if rng.random() < 0.5 else None])
+        else:
+            ks = [k for k, kind in enumerate(sers) if kind is not None]
+            if ks:
+                k = rng.choice(ks)
+                # the reference value of the parse is not needed for generation beyond its shape: rebuild it from the reference run
+                snaps = history_snapshots({'scalars': [to_wire(x) for x in scalars], 'kinds': kinds, 'steps': steps})
+                create(['parse', k], sers[k], parsed_form(from_wire(snaps[k])))
+    js = alive()
+    if js:
+        j = js[-1] if rng.random() < 0.7 else rng.choice(js)
+        steps.append(['ser', ['b', j], rng.choice(INDENTS) if rng.random() < 0.5 else None])
+    else:
+        steps.append(['ser', scalar_item(), None])
+    return {'scalars': [to_wire(x) for x in scalars], 'kinds': kinds, 'steps': steps}
+
+
+def history_script(hist):
+    """The history as BareScript source (+ the host globals holding the leaves); returns the texts t0, t1, ... as an array."""
+    kinds = hist['kinds']
+    lines = []
+    nb = nt = 0
+
+    def item(it):
+        return f's{it[1]}' if it[0] == 's' else f'b{it[1]}'
+    for step in hist['steps']:
+        op = step[0]
+        if op == 'arr':
+            lines.append(f'b{nb} = arrayNew({", ".join(item(i) for i in step[1])})')
+            nb += 1
+        elif op == 'obj':
+            lines.append(f'b{nb} = objectNew({", ".join(f"s{k}, {item(i)}" for k, i in step[1])})')
+            nb += 1
+        elif op == 'copy':
+            lines.append(f'b{nb} = {"arrayCopy" if kinds[step[1]] == "a" else "objectCopy"}(b{step[1]})')
+            nb += 1
+        elif op == 'fill':
+            lines.append(f'b{nb} = arrayNewSize({step[1]}, {item(step[2])})')
+            nb += 1
+        elif op == 'push':
+            lines.append(f'arrayPush(b{step[1]}, {item(step[2])})')
+        elif op == 'set':
+            if kinds[step[1]] == 'a':
+                lines.append(f'arraySet(b{step[1]}, {step[2]}, {item(step[3])})')
+            else:
+                lines.append(f'objectSet(b{step[1]}, s{step[2]}, {item(step[3])})')
+        elif op == 'del':
+            lines.append(f'objectDelete(b{step[1]}, s{step[2]})')
+        elif op == 'drop':
+            lines.append(f'b{step[1]} = null')
+        elif op == 'ser':
+            lines.append(f't{nt} = jsonStringify({item(step[1])}' + (')' if step[2] is None else f', {step[2]})'))
+            nt += 1
+        elif op == 'parse':
+            lines.append(f'b{nb} = jsonParse(t{step[1]})')
+            nb += 1
+    lines.append(f'return arrayNew({", ".join(f"t{i}" for i in range(nt))})')
+    return '\n'.join(lines) + '\n', {f's{i}': from_wire(w) for i, w in enumerate(hist['scalars'])}
+
+
+def history_direct(impl, hist, snaps):
+    """Run the history through the library functions, judging every "ser" with all oracles against the reference snapshot.
+    -> [(n, step index, indent, fails, text, extra)] (stops at the first serialisation that gives no text)."""
+    out = []
+    texts = {}
+
+    def on_ser(n, ix, obj, ind):
+        extra = {'shared': shared_containers(obj)}
+        fails, text = oracle_failures(impl, obj, ind, extra, ref=from_wire(snaps[n]))
+        out.append((n, ix, ind, fails, text, extra))
+        texts[n] = extra.get('jsonStringify') if isinstance(extra.get('jsonStringify'), str) else text
+
+    def on_parse(k):
+        if not isinstance(texts.get(k), str):
+            raise HistoryAbort()
+        return impl['library'].SCRIPT_FUNCTIONS['jsonParse']([texts[k]], None)
+    try:
+        run_history(hist, LibBackend(impl), on_ser, on_parse)
+    except HistoryAbort:
+        pass
+    except Exception as exc:  # pylint: disable=broad-except
+        # a step that is meaningful in the reference run failed on the implementation (its state has already diverged)
+        out.append((len(out), None, None, [], None, {'shared': 0, 'error': f'{type(exc).__name__}: {exc}'[:300]}))
+    return out
+
+
+def history_script_run(impl, hist):
+    """-> (source, list of texts | {'error': ...})"""
+    src, glob = history_script(hist)
+    try:
+        res = impl['runtime'].execute_script(impl['parser'].parse_script(src), {'globals': glob, 'maxStatements': 10 * len(hist['steps']) + 50})
+    except Exception as exc:  # pylint: disable=broad-except
+        return src, {'error': f'{type(exc).__name__}: {exc}'[:300]}
+    return src, res
+
+
+def history_script_failures(impl, hist, snaps):
+    """The same history as a script: every returned text against the reference snapshot. -> (source, result, [(n, fails)])"""
+    src, res = history_script_run(impl, hist)
+    out = []
+    if isinstance(res, list) and len(res) == len(snaps):
+        for n, (text, snap) in enumerate(zip(res, snaps)):
+            if not isinstance(text, str):
+                out.append((n, [('serialises', 'a JSON text', repr(text)[:200])]))
+                continue
+            fails = text_failures(impl, text, text, from_wire(snap))
+            if fails:
+                out.append((n, fails))
+    else:
+        out.append((0, [('serialises', f'{len(snaps)} JSON texts from the script', repr(res)[:300])]))
+    return src, res, out
+
+
+def load_history_corpus():
+    path = os.path.join(fw.VERIF, 'harness', 'corpus', 'C14.jsonl')
+    out = []
+    if os.path.exists(path):
+        with open(path, encoding='utf-8') as fh:
+            for ln in fh:
+                ln = ln.strip()
+                if ln and not ln.startswith('#'):
+                    d = json.loads(ln)
+                    if 'history' in d:
+                        out.append(d['history'])
+    return out
+
+
+def history_tags(hist):
+    ops = [s[0] for s in hist['steps']]
+    tags = [f'steps{min(len(ops), 12) // 3 * 3}+', f'ser{min(ops.count("ser"), 4)}']
+    seen_ser = set()
+    for s in hist['steps']:
+        if s[0] == 'ser' and s[1][0] == 'b':
+            seen_ser.add(s[1][1])
+        if s[0] in ('push', 'set', 'del') and seen_ser:
+            tags.append('changed-after-ser')
+            break
+    for op in ('copy', 'fill', 'parse', 'drop'):
+        if op in ops:
+            tags.append(op)
+    if any(s[0] == 'ser' and s[1][0] == 's' for s in hist['steps']):
+        tags.append('scalar-ser')
+    return tags
+
+
+def run_history_cases(ctx, st, hists, pool):
+    impl = fw.impl()
+    snaps_all = [history_snapshots(h) for h in hists]
+    reqs = []
+    for h, snaps in zip(hists, snaps_all):
+        sers = [s for s in h['steps'] if s[0] == 'ser']
+        reqs += [{'op': 'encode', 'value': snap, 'indent': s[2] or 0} for s, snap in zip(sers, snaps)]
+    resps = iter(ctx.driver.batch(reqs))
+    for hist, snaps in zip(hists, snaps_all):
+        model = [next(resps) for _ in snaps]
+        tags = history_tags(hist)
+        results = history_direct(impl, hist, snaps)
+        if results and 'error' in results[-1][5]:
+            ctx.disagree('history', {'history': hist}, {'error': results.pop()[5]['error']}, 'every step succeeds', 'a step of the history failed on the implementation')
+        elif len(results) != len(snaps):
+            ctx.disagree('history', {'history': hist}, {'serialisations': len(results)}, {'serialisations': len(snaps)},
+                         'the history stopped early on the implementation')
+        shared = any(r[5]['shared'] for r in results)
+        st.case(hist, nontrivial=shared or 'changed-after-ser' in tags or 'parse' in tags,
+                tags=tags + ['shared' if shared else 'tree'] + [f'expansion{min(max((depth_of(from_wire(s)) for s in snaps), default=0), 6)}'])
+        for (n, ix, ind, fails, text, extra), resp in zip(results, model):
+            case = {'history': hist, 'ser': n, 'step': ix, 'indent': ind, 'value': snaps[n]}
+            for oracle, want, got in fails:
+                ctx.witness(oracle, case, want, got)
+            impl_out = {'text': text} if text is not None else {'error': fails[0][2].split(':')[0]}
+            ctx.compare('history', case, impl_out, {'text': resp.get('mirror', resp)})
+            if text is not None and extra.get('jsonStringify') != text:
+                ctx.disagree('history', case, {'jsonStringify': str(extra.get('jsonStringify'))[:300]}, {'text': text[:300]},
+                             'library jsonStringify(v, indent) differs from value_json(v, int(indent))')
+            if extra.get('mutated'):
+                ctx.disagree('history', case, 'argument changed', 'argument unchanged', 'value_json changed its argument')
+            if resp.get('wf') is not True:
+                ctx.disagree('history', case, 'repr grammar / unique keys', resp.get('wf'), 'generated value is outside the hypotheses WF of the theorems')
+            if text is not None:
+                key = json.dumps(canon(from_wire(snaps[n])), ensure_ascii=True)
+                prev = pool.setdefault(text, (key, {'value': snaps[n], 'indent': ind}))
+                if prev[0] != key:
+                    ctx.witness('injective', {'value': snaps[n], 'indent': ind, 'other': prev[1]}, 'different values, different texts', text[:300])
+        # the same history as a script run by the interpreter
+        src, res, sfails = history_script_failures(impl, hist, snaps)
+        for n, fails in sfails:
+            for oracle, want, got in fails:
+                ctx.witness(oracle, {'history': hist, 'mode': 'script', 'script': src, 'ser': n, 'value': snaps[n] if n < len(snaps) else None}, want, got)
+        ctx.compare('history', {'history': hist, 'mode': 'script', 'script': src},
+                    res if isinstance(res, (list, dict)) else repr(res)[:200], [m.get('mirror', m) for m in model])
+
+
+def stream_history(ctx, pool):
+    st = ctx.stream('history', 'object graphs and histories: containers built step by step with arrayNew/objectNew/arrayCopy/objectCopy/arrayNewSize '
+                               'where the SAME array/object instance (also an empty one) is stored at several places, changed in place between two '
+                               'serialisations (arrayPush/arraySet/objectSet/objectDelete), dropped, parsed back and re-serialised; scalars from '
+                               'confusable groups (true/1/1.0, 0/-0.0/false, "1"/1); every jsonStringify of the history is judged by all property '
+                               'oracles against a reference execution on plain trees and compared with the model encoder on the expanded tree; each '
+                               'history runs twice: library functions in-process, and as a BareScript program through parse_script/execute_script; '
+                               'non-trivial = some serialised object reaches a container along two paths, or is changed after a serialisation, or '
+                               'comes from jsonParse')
+    rng = ctx.rng('history')
+    hists = load_history_corpus()
+    for _ in range(ctx.scale(3000, 40000)):
+        hists.append(gen_history(rng))
+    for i in range(0, len(hists), 5000):
+        run_history_cases(ctx, st, hists[i:i + 5000], pool)
+    st.exhaustive = False
+
+
+def history_fails(impl, hist):
+    """-> True if some serialisation of the history violates an oracle (direct or script mode)."""
+    snaps = history_snapshots(hist)
+    results = history_direct(impl, hist, snaps)
+    if len(results) != len(snaps) or any(r[3] or 'error' in r[5] for r in results):
+        return True
+    return bool(history_script_failures(impl, hist, snaps)[2])
+
+
 def streams(ctx):
     pool = {}
     stream_reparse(ctx)
+    stream_history(ctx, pool)
     texts = stream_json(ctx, pool)
     stream_strings(ctx, pool)
     stream_cleanup(ctx, texts)
@@ -691,6 +1257,28 @@ def search(ctx):
     for v, ind in load_corpus():
         if try_(v, ind):
             return
+
+    def try_history(hist):
+        snaps = history_snapshots(hist)
+        for n, ix, ind, fails, _, extra in history_direct(impl, hist, snaps):
+            if 'error' in extra:
+                continue
+            for oracle, want, got in fails:
+                ctx.witness(oracle, {'history': hist, 'ser': n, 'step': ix, 'indent': ind, 'value': snaps[n]}, want, got)
+        if not ctx.witnesses:
+            src, _, sfails = history_script_failures(impl, hist, snaps)
+            for n, fails in sfails:
+                for oracle, want, got in fails:
+                    ctx.witness(oracle, {'history': hist, 'mode': 'script', 'script': src, 'ser': n, 'value': snaps[n] if n < len(snaps) else None}, want, got)
+        return bool(ctx.witnesses)
+
+    for hist in load_history_corpus():
+        if try_history(hist):
+            return
+    hrng = ctx.rng('search-history')
+    for _ in range(ctx.scale(3000, 30000)):
+        if try_history(gen_history(hrng)):
+            return
     for x in [None, True] + INTS + FLOATS + [-y for y in FLOATS]:
         for ind in (None, 1, 4):
             if try_([x, {'b': x, 'a': [x]}], ind):
@@ -709,9 +1297,23 @@ def search(ctx):
 def replay(witness):
     impl = fw.impl()
     inp = witness['input']
+    if 'history' in inp:
+        # the whole history is the input: the same steps, in the same order, in direct and in script mode
+        return history_fails(impl, inp['history'])
+    if 'value' not in inp and 'text' in inp:
+        # reparse stream: parse, change the result, parse the same text again
+        lib = impl['library'].SCRIPT_FUNCTIONS
+        want = json.loads(inp['text'])
+        first = lib['jsonParse']([inp['text']], None)
+        if isinstance(first, list):
+            lib['arrayPush']([first, 'extra'], None)
+        elif isinstance(first, dict):
+            lib['objectSet']([first, 'extra', 1], None)
+        second = lib['jsonParse']([inp['text']], None)
+        return second is first or not py_equal(second, want)
     v = from_wire(inp['value'])
     ind = inp.get('indent')
-    fails, text = oracle_failures(impl, v, ind)
+    fails, text = oracle_failures(impl, v, ind, ref=from_wire(inp['value']))
     if fails:
         return True
     if 'other' in inp and text is not None:
